@@ -182,6 +182,10 @@ func (d *Generator) SetEllipticalGradient(cx, cy, rx, ry, sx, sy float32, spread
 func (d *Generator) SetGradient(shape GradientShape, spread GradientSpread, stops []GradientStop, transform Aff3) error {
 	cBase, nBase := uint8(10), uint8(10)
 
+	if len(stops) > 64-len(transform) {
+		// Also catches 256 or more stops, whose count wraps in a uint8.
+		return TooManyGradientStops
+	}
 	nStops := uint8(len(stops))
 	if nStops > uint8(64-len(transform)) {
 		return TooManyGradientStops
